@@ -172,6 +172,26 @@ SeriesPool == <<
   P("idxone", "1"), P("idx3", "2,1,1"), P("idxinf", "inf,1"), P("idx18", "9223372036854775807,1"),
   P("idxminus0", "2,-0")
 >>
+\* well-formed multi-element values for the keys whose series have structure (stack roll / unroll = m,n;
+\* push / pop / flip = index lists; axisswap order; helmert triples): every pair over SV, every triple with
+\* at most two distinct members, the quadruples of one value and 1,2,3,4 with one member substituted.
+\* Among them: all zero, negative zero, equal magnitudes (|n| = m), huge/huge, the maximal length.
+SV == <<"0", "-0", "1", "-1", "2", "-2", "3", "-3", "4", "5", "9e18", "-9e17", "1e308", "0.5">>
+NSV == Len(SV)
+Sx(v) == P("s:" \o v, v)
+StructPairs == [i \in 1..(NSV * NSV) |-> Sx(SV[((i - 1) \div NSV) + 1] \o "," \o SV[((i - 1) % NSV) + 1])]
+StructTriples ==
+    LET all == [i \in 1..(NSV * NSV * NSV) |-> <<((i - 1) \div (NSV * NSV)) + 1, (((i - 1) \div NSV) % NSV) + 1, ((i - 1) % NSV) + 1>>]
+        few == SelectSeq(all, LAMBDA x : x[1] = x[2] \/ x[2] = x[3] \/ x[1] = x[3])
+    IN [i \in 1..Len(few) |-> Sx(SV[few[i][1]] \o "," \o SV[few[i][2]] \o "," \o SV[few[i][3]])]
+Q4 == <<"1", "2", "3", "4">>
+StructQuads ==
+    [i \in 1..NSV |-> Sx(SV[i] \o "," \o SV[i] \o "," \o SV[i] \o "," \o SV[i])]
+    \o [i \in 1..(4 * NSV) |->
+          LET p == ((i - 1) \div NSV) + 1  v == SV[((i - 1) % NSV) + 1]
+              e(k) == IF k = p THEN v ELSE Q4[k]
+          IN Sx(e(1) \o "," \o e(2) \o "," \o e(3) \o "," \o e(4))]
+StructSeries == TLCEval(StructPairs \o StructTriples \o StructQuads)
 NaturalPool == <<
   P("nat61", "61"), P("nat60", "60"), P("natplus", "+5"), P("nat32bit", "4294967296"),
   P("nat64bit", "18446744073709551616"), P("natspace", "3_2"), P("nathex", "0x20")
@@ -199,7 +219,7 @@ IsEllpsKey(k) == k \in {"ellps", "ellps_0", "ellps_1"}
 PoolFor(key) ==
     Core
     \o (IF IsEllpsKey(key.k) THEN EllpsFixed \o EllpsKnown ELSE <<>>)
-    \o (CASE key.kind = "series"  -> SeriesPool
+    \o (CASE key.kind = "series"  -> SeriesPool \o StructSeries
           [] key.kind = "natural" -> NaturalPool \o SeriesPool
           [] key.kind = "integer" -> NaturalPool \o SeriesPool
           [] key.kind = "text"    -> TextPool
@@ -250,7 +270,9 @@ DefRecord(st) ==
         plain == DefText(o.name, args)
         w     == st.w
         text  == CASE w = "alone"      -> plain
-                   [] w = "step"       -> "stack push=1,2,3,4 | " \o plain \o " | stack pop=1,2,3,4"
+                   \* eight columns on the stack when the step runs, in either direction
+                   [] w = "step"       -> "stack push=1,2,3,4 | stack push=1,2,3,4 | " \o plain
+                                          \o " | stack pop=1,2,3,4 | stack pop=1,2,3,4"
                    [] w = "macro_body" -> MacroName
                    [] w = "macro_arg"  -> DefText(MacroName, [i \in 1..Len(ed) |-> PassForm(ed[i], i)])
                    [] w = "proj"       -> ProjText(o.name, args)
@@ -272,7 +294,9 @@ SetKey == /\ s.ph = "pick" /\ Len(s.eds) < MaxEdits
                       s' = [s EXCEPT !.eds = Append(@, <<ki, ci>>)]
 
 \* with ClassStride > 1 the non-trivial wrappings take every ClassStride-th class each (rotating)
+\* (the stack sub-commands only do anything as a pipeline step: series keys always get that wrapping too)
 WrapAllowed(st, w) == IF ClassStride = 1 \/ w = "alone" \/ Len(st.eds) > 1 THEN TRUE
+                      ELSE IF w = "step" /\ Keys(Catalogue[st.oi])[st.eds[1][1]].kind = "series" THEN TRUE
                       ELSE (st.eds[1][2] + st.eds[1][1]) % ClassStride = WrapSlot(w) % ClassStride
 Wrap == /\ s.ph = "pick" /\ Len(s.eds) = MaxEdits
         /\ \E w \in WrapsC : WrapAllowed(s, w) /\ s' = [ph |-> "done", oi |-> s.oi, eds |-> s.eds, w |-> w]
